@@ -13,7 +13,9 @@ RULE = ("MSSM on-shell points (generator of C06) and THDM mass/gauge-basis point
         "2L(a) terms dominating the MSSM two-loop uncertainty; rejected inputs are discarded and counted")
 ASSUMPTIONS = [
     "documented sums recomputed in Python from the public a_mu functions: MSSM d0L=|a1L|, d1L=|a2L|+d2L, "
-    "d2L=2.3e-10+0.3(|2L(a) chi|+|2L(a) sferm|); THDM d0L=|a1L|+|a2L|, d1L=|a2L|+d2L, d2L>=2e-12",
+    "d2L=2.3e-10+0.3(|2L(a) chi|+|2L(a) sferm|); THDM d0L=|a1L|+|a2L|, d1L=|a2L|+d2L, d2L>=2e-12 and "
+    "d2L = 2e-12 + (|a1L|+|a2L|)|4 alpha_em/pi log(m_NP/m_mu)| with m_NP = min(m_H, m_A, m_H+) and alpha_em, m_mu as "
+    "the model reports them (formula from the property's anchor and the doxygen comment of the function)",
     "sums are compared to 4 ulp of the largest term (the documented expression may be evaluated in any order)",
     "a model 'yields a finite a_mu' iff the public one- and two-loop functions return finite numbers; "
     "models with non-finite a_mu are counted under their own class and not judged here (C11/C16)",
@@ -58,6 +60,14 @@ def judge(r, kind):
         if not close(u0, abs(a1) + abs(a2), max(abs(a1), abs(a2))):
             return Fail("zero-loop uncertainty != |a1L| + |a2L|", u0=u0, a1=a1, a2=a2)
         pre = [("unc0L_pre", u0), ("unc1L_pre", u1), ("unc2L_pre", u2)]
+        # documented estimate: 2e-12 + (|a1L| + |a2L|) |4 alpha/pi log(m_NP/m_mu)|, m_NP = lightest new Higgs boson
+        mnp = min(abs(r["Mhh.1"]), abs(r["MAh.1"]), abs(r["MHm.1"]))
+        mm, al = r.get("MFe.1"), r.get("alpha_em")
+        if mnp > 0 and mm and al:
+            want = 2e-12 + (abs(a1) + abs(a2)) * abs(4 * al / math.pi * math.log(mnp / mm))
+            if abs(u2 - want) > 1e-12 * want:
+                return Fail("THDM two-loop uncertainty != 2e-12 + (|a1L|+|a2L|) |4 alpha/pi log(m_NP/m_mu)|", u2=u2,
+                            expected=want, mNP=mnp, masses=[r["Mhh.0"], r["Mhh.1"], r["MAh.1"], r["MHm.1"]])
     for k, u in pre:
         v = r.get(k)
         if v is None or v != u:
